@@ -12,21 +12,23 @@ import (
 
 type fSched struct{ s *simrt.Sched }
 
-func (f *fSched) Install()   { simrt.Install(f.s) }
-func (f *fSched) Uninstall() { simrt.Install(nil) }
+func (f *fSched) Install()                    { simrt.Install(f.s) }
+func (f *fSched) SetSelectSeed(seed uint64)   { f.s.SelectSeed = seed }
+func (f *fSched) SetDriverWait(w func() bool) { f.s.DriverWait = w }
+func (f *fSched) Uninstall()                  { simrt.Install(nil) }
 func (f *fSched) Waiters() []core.FWaiter {
 	ws := f.s.Waiters()
 	out := make([]core.FWaiter, len(ws))
 	for i, w := range ws {
-		out[i] = core.FWaiter{Site: w.Site, Lock: w.Kind == simrt.KindLock, Runnable: f.s.Runnable(w), Seq: w.Seq, Ref: w}
+		out[i] = core.FWaiter{Site: w.Site, Lock: w.Kind == simrt.KindLock, Runnable: f.s.Runnable(w), Seq: w.Seq, G: w.G, Ref: w}
 	}
 	return out
 }
-func (f *fSched) Resume(w core.FWaiter)  { f.s.Resume(w.Ref.(*simrt.Waiter)) }
-func (f *fSched) DriverCall(fn func())   { f.s.DriverCall(fn) }
-func (f *fSched) Off()                   { f.s.Off() }
-func (f *fSched) Steps() uint64          { return f.s.Steps }
-func (f *fSched) Hash() uint64           { return f.s.Hash }
+func (f *fSched) Resume(w core.FWaiter) { f.s.Resume(w.Ref.(*simrt.Waiter)) }
+func (f *fSched) DriverCall(fn func())  { f.s.DriverCall(fn) }
+func (f *fSched) Off()                  { f.s.Off() }
+func (f *fSched) Steps() uint64         { return f.s.Steps }
+func (f *fSched) Hash() uint64          { return f.s.Hash }
 
 func init() {
 	core.NewFScheduler = func() core.FScheduler { return &fSched{s: simrt.New()} }
